@@ -147,6 +147,8 @@ package textwire
 //@   ensures result1 == nil ==> result0 != nil && forallkey(result0, k, result0[k] != nil && WFNode(iface(result0[k])) && len(result0[k].Reserves) == 0)
 //@   modifies *
 //@   loop 0: invariant result != nil && fresh(result) && forallkey(result, k, result[k] != nil && WFNode(iface(result[k])) && len(result[k].Reserves) == 0)
+//@   call parseProgram#0: bind parsed
+//@   loop 0: continues-only-if every-file-fault-fails-the-load: parsed1 == nil && parsed2 == nil
 
 //@ func NewTemplate
 //@   ensures result1 != nil ==> result0 == nil
